@@ -4,36 +4,109 @@ KERNEL = "Coq 8.16.1 kernel + vm_compute (no native_compute); no axioms declared
 MODEL = "hand-written Gallina model of the Rust functions (coq/theories/Model), tied to /repo by the correspondence run of this check"
 EXTRACT = "tools/extract_src.py (regular-expression translator of literals/tables from /repo/src into Generated/SrcConsts.v)"
 HARNESS = "Rust harness /verif/harness (path dependency on /repo, feature `unstable`), case serialiser, Run/Driver.v comparison"
+BASE = [KERNEL, MODEL, EXTRACT, HARNESS]
+SIGNER = "independent SigV4 reference signer in the harness (harness/src/signer.rs, sha2/hmac crates directly) used to produce correctly signed requests"
+THIRD = "third-party crates are oracles: http (URI/header parsing), regex, chrono, encoding, tower, subtle, hmac/sha2 (their results are inputs to, or re-implemented by, the model and compared on every case)"
 
 # known-finding classes (flag word >> 2)
 CLASSES = {
     1: "plus_in_path",
 }
 
-PROPS = {
-    "C09": {
-        "families": ["path"],
-        "level": "proof",
-        "trusted_base": [KERNEL, MODEL, EXTRACT, HARNESS,
-                         "index loop of canonicalize_uri_path modelled as a stack fold (checked by correspondence)",
-                         "regex `//+` replace_all modelled as collapse_slashes (checked by correspondence)"],
-        "rule": "path family: fixed edge paths; every byte 0-255 as literal / lower-hex / upper-hex escape, alone and embedded; "
-                "all %XY escape pairs over an alphabet (quick: 40 chars, thorough: all 128 ASCII); every path of <=3 (quick) / <=5 (thorough) "
-                "segments over {a,'',.,..,%2e,%2E%2e,%2F,%zz,%4,a+b}; random and long paths; both modes. "
-                "non-trivial = not tagged trivial; distinct = distinct (mode, path) inputs",
-        "assumptions": ["&str inputs (valid UTF-8) on the implementation side; the theorems cover all byte lists",
-                        "known finding D1: literal '+' in a path is canonicalised as a space (pinned by unit test canonicalize_valid)"],
-    },
-}
+TECH = "Coq proof over hand-written Gallina model + differential correspondence vs the Rust crate"
+TECH_PARTIAL = "Coq proof over Gallina model of the logical core + correspondence/observation harness for the runtime part (partial)"
 
-MANIFEST_TEXT = {
-    "C09": {
-        "text": "Machine-checked theorems (Coq) about a Gallina model of canonicalize_uri_path / normalize_uri_element: the model equals an independent "
-                "decode-resolve-encode specification for every byte string outside the known-finding class, is idempotent, has the stated output alphabet "
-                "and fails exactly on the stated set; the model is tied to the code by an exhaustive-by-family differential run on every check.",
-        "design_ref": "DESIGN.md section 6 / C09",
-        "note": "Trusted: Coq kernel + vm_compute; the hand translation of the Rust loop into the model (validated by correspondence on the enumerated families); "
-                "extract_src.py for the unreserved-set expression and hex table; harness generators. Known finding D1 ('+' in path) is excluded by an explicit class predicate.",
-        "technique": "Coq proof over hand-written Gallina model + differential correspondence vs the Rust crate",
-    },
-}
+PROPS = {}
+MANIFEST_TEXT = {}
+
+
+def reg(pid, families, rule, text, note, assumptions=(), extra_trust=(), level="proof", technique=TECH, section=None,
+        extra=None):
+    PROPS[pid] = {
+        "families": families,
+        "level": level,
+        "trusted_base": BASE + list(extra_trust),
+        "rule": rule,
+        "assumptions": list(assumptions),
+        "extra": extra or [],
+    }
+    MANIFEST_TEXT[pid] = {
+        "text": text,
+        "design_ref": "DESIGN.md section 6 / %s" % pid if section is None else section,
+        "note": note,
+        "technique": technique,
+    }
+
+
+reg("C05", ["c05", "reqops"],
+    rule="c05 family: correctly signed requests whose signed-header list omits / includes each declared name (always-present, if-in-request, "
+         "prefix) under requirement sets in random letter case, both carriers; reqops family: random add_*/remove_* operation sequences on "
+         "the Vec container and the Slice container compared with the model's lists. non-trivial = not tagged trivial; distinct = distinct input lines",
+    text="Machine-checked theorems: the requirement containers refine case-folded sets for every operation sequence; reqs_ok means exactly the "
+         "stated conjunction (always-present, conditional, prefix) and is extensional in the denoted sets; acceptance implies the conjunction and a "
+         "violation is refused as SignatureDoesNotMatch before any date/scope/provider step (pipeline theorems). The model is tied to the code by "
+         "running both on correctly-signed requests that omit a required header.",
+    note="Trusted: kernel, hand model of the three requirement loops and of the Vec/Slice containers (correspondence-checked), harness signer. "
+         "Declared names are assumed ASCII (header names are).",
+    assumptions=["declared header names are ASCII", SIGNER],
+    extra_trust=[SIGNER])
+
+reg("C06", ["c06"],
+    rule="c06 family: secrets of every length 0..48 (random bytes incl. non-ASCII), capacities 0..64 for from_str, dates incl. year 1, leap days, "
+         "9999-12-31, empty / non-ASCII region and service; all five key types' bytes, the read-back and the nine shortcut methods compared with "
+         "the model and with an HMAC chain written out independently in the driver. distinct = distinct input lines",
+    text="Machine-checked theorems for an arbitrary hash H with 64-byte block: hmac_zero_pad (hashing the whole zero-padded buffer equals hashing "
+         "'AWS4'+secret), the four-step chain, all shortcut compositions, read-back, capacity iff, never panics (every capacity), date format "
+         "(8 digits, injective). Tied to the code by running KSecretKey::from_str / to_k* on every secret length and capacity.",
+    note="Trusted: kernel; hand model of KSecretKey<M> (buffer + length); sha2/hmac crates equal the Gallina SHA-256/HMAC (compared on every case). "
+         "Theorems do not depend on the concrete hash.",
+    assumptions=["capacity M <= 64 (HMAC block) for the chain theorem; the default capacity is 44"])
+
+reg("C09", ["path"],
+    rule="path family: fixed edge paths; every byte 0-255 as literal / lower-hex / upper-hex escape, alone and embedded; "
+         "all %XY escape pairs over an alphabet (quick: 40 chars, thorough: all 128 ASCII); every path of <=3 (quick) / <=5 (thorough) "
+         "segments over {a,'',.,..,%2e,%2E%2e,%2F,%zz,%4,a+b}; random and long paths; both modes. "
+         "non-trivial = not tagged trivial; distinct = distinct (mode, path) inputs",
+    text="Machine-checked theorems (Coq) about a Gallina model of canonicalize_uri_path / normalize_uri_element: the model equals an independent "
+         "decode-resolve-encode specification for every byte string outside the known-finding class, is idempotent, has the stated output alphabet "
+         "and fails exactly on the stated set; the model is tied to the code by an exhaustive-by-family differential run on every check.",
+    note="Trusted: Coq kernel + vm_compute; the hand translation of the Rust loop into the model (validated by correspondence on the enumerated families); "
+         "extract_src.py for the unreserved-set expression and hex table; harness generators. Known finding D1 ('+' in path) is excluded by an explicit class predicate.",
+    assumptions=["&str inputs (valid UTF-8) on the implementation side; the theorems cover all byte lists",
+                 "known finding D1: literal '+' in a path is canonicalised as a space (pinned by unit test canonicalize_valid)"],
+    extra_trust=["index loop of canonicalize_uri_path modelled as a stack fold (checked by correspondence)",
+                 "regex `//+` replace_all modelled as collapse_slashes (checked by correspondence)"])
+
+reg("C10", ["c10"],
+    rule="c10 family: query strings with all byte values through escapes, 0-12 parameters, repeated names, names that are prefixes of others "
+         "followed by bytes below '=', empty names/values, missing '=', '&&'; each also permuted and respelled; every query is canonicalised "
+         "over several freshly built HashMaps (fresh RandomState seeds) and all outputs must agree (`stable`). distinct = distinct query strings",
+    text="Machine-checked theorems: the canonical query of the model equals the specification (decode, drop X-Amz-Signature, encode once, sort "
+         "by (name, value), join) for every byte string; it is a function of the multiset of decoded pairs (Permutation-invariant, HashMap "
+         "order-invariant), lists every pair, is sorted, and fails iff an escape is malformed. Tied to the code by differential runs incl. "
+         "prefix-related names and fresh hash seeds.",
+    note="Trusted: kernel; HashMap modelled as association list + explicit iteration order (theorem quantifies over every permutation); harness.",
+    assumptions=["HashMap iteration order is some permutation of the entries"])
+
+reg("C11", ["c11", "hdrval"],
+    rule="c11 family: correctly signed requests over header multisets (repeated names, mixed case, padded values, bytes 0x80-0xFF); mutations of "
+         "unsigned headers (verdict must not change) and of signed ones beyond spacing (must be refused); hdrval family: normalize_header_value "
+         "on enumerated/random values vs model and vs the split-drop-join specification. distinct = distinct input lines",
+    text="Machine-checked theorems: value normalisation = split on spaces, drop empties, join; idempotent; padding/run insensitive; the canonical "
+         "header block equals the specification block for every header list and signed list, depends only on per-name value order and lower-cased "
+         "names, and ignores headers whose name is not signed. Tied to the code by signed-request runs with header mutations.",
+    note="Trusted: kernel; HeaderMap modelled as insertion-ordered list with lower-cased names (as `http` does); harness signer.",
+    assumptions=["header names arrive lower-cased from the http crate", SIGNER], extra_trust=[SIGNER])
+
+reg("C16", ["c16", "c16e"],
+    rule="c16 family: exhaustive two-digit sweep of each field with the others fixed, all separator combinations, offset hours 00-29 x minutes "
+         "{00,30,59,60}, fraction lengths 0-12 with '.' and ',', random strings and single-character mutations, header and query carrier "
+         "(percent-encoded); implementation's parse result vs model vs an independent reference parser in the harness (refiso.rs); "
+         "c16e family: end-to-end signed requests checking the timestamp line of the string-to-sign and the date given to the provider. "
+         "distinct = distinct input lines",
+    text="Machine-checked theorems: parse_iso8601 s = Some t iff s matches the declarative grammar and denotes t (calendar validity, offset "
+         "applied, fraction truncated); the Gregorian calendar conversions are mutually inverse for all integers; the compact rendering "
+         "round-trips and the scope date is its prefix. Tied to the code (regex + chrono) by field sweeps and end-to-end signed requests.",
+    note="Trusted: kernel; regex re-implemented as a deterministic recogniser and chrono as Calendar.v (both correspondence-checked); "
+         "input domain code points <= U+00FF.",
+    assumptions=["timestamp texts contain only code points <= U+00FF (all that latin1_to_string / unescape can produce)"])
